@@ -25,9 +25,11 @@ RULE = ("scenario families over {subscribe (plain / decorated object, also a fal
         "application and from inside a handler (of itself, an earlier, a later sibling), UNSUBSCRIBED / ERROR / "
         "router revocation, EVENT (6 payload shapes x 4 detail sets) on held, racing, gone and never-held ids} with "
         "raising handlers (sync RuntimeError, ApplicationError, failed future, failing coroutine) and handlers returning "
-        "futures / coroutines: every admissible ORDER of the 4-7 "
+        "futures / coroutines, the same callable subscribed several times, subscribe() from inside a handler, a refused "
+        "UNSUBSCRIBE after which the router keeps the subscription, up to 8+ handlers per id: every admissible ORDER of the 4-7 "
         "concurrent steps of each family instance is enumerated (prefix-pruned DFS over distinct permutations), plus "
-        "seeded adaptive random histories of 10-45 steps; each case on a fresh session over one of 8 "
+        "(thorough tier) every admissible sequence of 6 distinct steps over 10 alphabets of 9-11 steps, each on 2 of the "
+        "8 combinations per framework; plus seeded adaptive random histories of 10-48 steps; each case on a fresh session over one of 8 "
         "transport x serializer combinations, on Twisted and on asyncio.  A case is non-trivial when at least one "
         "EVENT fan-out was compared with the model; distinct = hash(framework, transport, serializer, handler table, "
         "step list).")
@@ -48,8 +50,19 @@ ASSUMPTIONS = [
     "being removed) is regarded as detached once UNSUBSCRIBED arrives, as the router no longer has the subscription",
     "coroutine handlers are plain functions that record the call and return a coroutine object (what txaio.as_future gets "
     "from an 'async def' handler): the invocation is recorded when the library calls the handler, not when the body runs",
-    "not driven: the same callable subscribed twice, payload encryption, acknowledged delivery, check_types, transport "
-    "loss in the middle of a fan-out (C06), subscribe() from inside a handler",
+    "the same callable subscribed several times: its subscriptions are indistinguishable to the application unless event "
+    "details are requested (then EventDetails.subscription attributes the invocation exactly); otherwise an invocation is "
+    "attributed to the first subscription of that callable, in subscription order, that is still attached and not yet "
+    "served for the current EVENT",
+    "subscribe() from inside a handler: over a real transport SUBSCRIBED can only arrive after the fan-out has ended, so a "
+    "handler can never become attached DURING a fan-out; checked: the SUBSCRIBE is written, the new handler does not see "
+    "the event being fanned out nor any event before its SUBSCRIBED, and sees those after it",
+    "grey (no handler may be called, the fate of the session is not judged): EVENT after a refused UNSUBSCRIBE while no "
+    "handler is attached, whether the router then keeps the subscription (ERROR not_authorized) or not (no_such_subscription); "
+    "once a later SUBSCRIBED re-attaches a handler to the kept id, delivery is judged strictly again",
+    "observed, not judged (outside the statement): the topic string that subscribe(obj) puts into SUBSCRIBE for a "
+    "decorated '<name>' pattern",
+    "not driven: payload encryption, acknowledged delivery, check_types, transport loss in the middle of a fan-out (C06)",
     "the harness codecs (json/msgpack/cbor2/bjdata) and vf.rfc6455_ref are trusted for decoding what the client wrote",
 ]
 DECIDING = {
@@ -59,25 +72,42 @@ DECIDING = {
     "never_held_checked": 20, "racing_events_checked": 20, "decorated_object_invocations": 20,
     "details_checked": 200, "liveness_probes": 100, "removed_midfanout_checked": 20, "coroutine_handler_invocations": 50,
     "falsy_object_invocations": 10, "same_class_instance_invocations": 200, "same_class_events_after_partial_unsubscribe": 50,
-    "same_class_unsubscribe_positions": 3,
+    "same_class_unsubscribe_positions": 3, "same_callable_invocations": 100, "subscribe_in_handler_on_wire": 50,
+    "unsubscribe_refused_subscription_kept": 30, "pattern_topic_details_checked": 200, "pattern_kinds": 3,
+    "exhaustive_cases": lambda tier: 100000 if tier == "thorough" else 0, "events_with_8_or_more_handlers": 50,
 }
+_DISTINCT_DECIDING = ("same_class_unsubscribe_positions", "pattern_kinds")
 
 COMBOS = [("websocket", "json"), ("websocket", "msgpack"), ("websocket", "cbor"), ("websocket", "ubjson"),
           ("rawsocket", "json"), ("rawsocket", "msgpack"), ("rawsocket", "cbor"), ("rawsocket", "ubjson")]
 SHAPES = ["none", "args", "emptyargs", "kwargs", "both", "emptykw"]
+NRAND_THOROUGH = 40000
 
 
 # ------------------------------------------------------------------------------------------------
 # case construction helpers
 # ------------------------------------------------------------------------------------------------
 
-def H(ti=0, det=None, raises=None, unsub=(), obj=None, own=True, ret=None):
-    """handler spec.  det: None | ["flag"] (SubscribeOptions(details=True)) | ["arg", name]."""
-    return {"ti": ti, "det": det, "raises": raises, "unsub": list(unsub), "obj": obj, "own": own, "ret": ret}
+def H(ti=0, det=None, raises=None, unsub=(), obj=None, own=True, ret=None, same=None, insub=()):
+    """handler spec.  det: None | ["flag"] (SubscribeOptions(details=True)) | ["arg", name].
+    same: hid of an earlier plain handler whose CALLABLE this subscription re-uses (the same function object subscribed
+    again); insub: hids this handler subscribes (session.subscribe) from inside its invocation."""
+    return {"ti": ti, "det": det, "raises": raises, "unsub": list(unsub), "obj": obj, "own": own, "ret": ret,
+            "same": same, "insub": list(insub)}
 
 
-def T(i, match=None):
+def T(i, match=None, wc=False):
+    """topic group.  wc: a wildcard pattern with an empty component ("com.c11..t3"; decorated form "com.c11.<x>.t3")."""
+    if wc:
+        return {"uri": "com.c11..t%d" % i, "match": "wildcard", "wc": True}
     return {"uri": "com.c11.t%d" % i, "match": match}
+
+
+def concrete_topic(topic, n):
+    """the concrete topic an event matching the subscription is published to."""
+    if topic.get("wc"):
+        return topic["uri"].replace("..", ".x%d." % n)
+    return topic["uri"] + (".x%d" % n if topic["match"] else "")
 
 
 def det_name(det):
@@ -126,6 +156,9 @@ class Exec:
         self.members = {}        # class key -> [oid] instantiated so far
         self.shared = {}         # hid -> (class key, method index) for handlers of a class with >= 2 instances
         self.sc_unsub = set()    # (class key, method index, sid) with an instance unsubscribed while siblings stay
+        self.fns = {}            # root hid -> the one function object shared by all subscriptions of that callable
+        self.insubs = []         # hids subscribed from inside a handler whose SUBSCRIBE was not yet seen on the wire
+        self.refused = set()     # sids whose UNSUBSCRIBE was refused while the router keeps the subscription
         self.expect_unsub = {}   # sid -> number of UNSUBSCRIBE messages that must appear on the wire now
         self.pending_withheld = 0  # unsubscribe() calls since the last wire check that must NOT produce an UNSUBSCRIBE
         # ---- router
@@ -154,6 +187,7 @@ class Exec:
         case = dict(self.case)
         case["steps"] = self.executed if self.case.get("adaptive") else self.case["steps"]
         case.pop("adaptive", None)
+        case.pop("burst", None)
         case["transport"] = self.transport
         case["ser"] = self.ser
         self.R.violation(key, what, detail, case)
@@ -229,11 +263,39 @@ class Exec:
     # -- handlers -----------------------------------------------------------------------------
     def make_fn(self, hid):
         ex = self
+        root = self.Hs[hid].get("same")
+        root = hid if root is None else root
+        if root in self.fns:
+            return self.fns[root]
+        group = [root] + [x for x, sp in enumerate(self.Hs) if sp.get("same") == root]
 
         def fn(*a, **k):
-            return ex.on_invoke(hid, None, a, k)
-        fn.__name__ = "h%d" % hid
+            return ex.on_invoke(ex.attribute(group, k) if len(group) > 1 else root, None, a, k)
+        fn.__name__ = "h%d" % root
+        self.fns[root] = fn
         return fn
+
+    def attribute(self, group, k):
+        """Which subscription of a callable that is subscribed several times is this invocation for?  Exact if event
+        details were requested (EventDetails.subscription); otherwise the subscriptions of one callable are
+        indistinguishable to the application: the first one in subscription order that is still attached and has not been
+        served for the current EVENT."""
+        from autobahn.wamp.types import EventDetails
+        for v in k.values():
+            if isinstance(v, EventDetails):
+                for x in group:
+                    if x in self.handle and self.handle[x] is v.subscription:
+                        return x
+        cur = self.cur
+        if cur is not None:
+            called = {c["hid"] for c in cur["calls"]}
+            cands = [x for x in cur["L"] if x in group and x not in called]
+            for x in cands:
+                if self.state.get(x) == "attached":
+                    return x
+            if cands:
+                return cands[0]
+        return group[0]
 
     def make_method(self, key, n):
         """Method n of the decorated class ``key``: ONE function object in the class, shared by all its instances (that
@@ -270,7 +332,10 @@ class Exec:
             topic = self.Ts[ti]
             # own options (even empty ones) take precedence over the options given to subscribe(obj, options=..)
             opts = (self._options(topic, det) or SubscribeOptions()) if own else None
-            ns["m%02d" % n] = wamp.subscribe(topic["uri"], options=opts)(self.make_method(key, n))
+            # decorated form of a wildcard pattern: a named component; without any options the library derives
+            # match="wildcard" from it
+            duri = topic["uri"].replace("..", ".<x>.") if topic.get("wc") else topic["uri"]
+            ns["m%02d" % n] = wamp.subscribe(duri, options=opts)(self.make_method(key, n))
         ns["not_a_handler"] = lambda self_: None
         if ospec.get("falsy"):
             ns["__len__"] = lambda self_: 0          # a component that is also an (empty) container: bool(obj) is False
@@ -293,6 +358,9 @@ class Exec:
         for tgt in spec["unsub"]:
             if self.state.get(tgt) == "attached" and tgt in self.handle:
                 self.app_unsub(tgt, inside=True, actor=hid)
+        for tgt in spec.get("insub") or ():
+            if cur is not None and self.state.get(tgt) == "new" and self.Hs[tgt]["obj"] is None:
+                self.app_sub_inside(tgt, hid)
         kind = spec["raises"]
         if kind:
             rec["raised"] = True
@@ -347,8 +415,19 @@ class Exec:
         for hid, m in zip(hids, subs):
             topic = self.Ts[self.Hs[hid]["ti"]]
             # a decorated method without own options gets the options of subscribe(obj, options=..), which carry no match
-            match = topic["match"] if (self.Hs[hid]["obj"] is None or self.Hs[hid]["own"]) else None
-            if len(m) != 4 or m[3] != topic["uri"] or (m[2] or {}).get("match", "exact") != (match or "exact"):
+            spec = self.Hs[hid]
+            if spec["obj"] is None or spec["own"]:
+                match = topic["match"]
+            else:
+                match = "wildcard" if topic.get("wc") and self.Os[spec["obj"]].get("objdet") is None else None
+            uris = [topic["uri"]]
+            if spec["obj"] is not None and topic.get("wc"):
+                # observed, not judged (outside the statement): the pinned code puts the decorator's "<x>" pattern string
+                # itself on the wire instead of the wildcard URI with an empty component
+                uris.append(topic["uri"].replace("..", ".<x>."))
+                if len(m) == 4 and m[3] == uris[1]:
+                    self.R.count("decorated_pattern_subscribed_with_placeholder_uri")
+            if len(m) != 4 or m[3] not in uris or (m[2] or {}).get("match", "exact") != (match or "exact"):
                 self.viol("C11/%s/subscribe-wire" % ctx, "SUBSCRIBE %r does not carry topic %r / match %r" % (m, topic["uri"], match or "exact"))
             self.rq.append({"kind": "sub", "req": m[1], "ti": self.Hs[hid]["ti"], "hid": hid})
             self.state[hid] = "pending"
@@ -365,6 +444,23 @@ class Exec:
         self._expect_subscribes([hid], "subscribe")
         self.expect_alive("subscribe/session-harmed", "session failed while subscribing")
         return True
+
+    def app_sub_inside(self, hid, actor):
+        """session.subscribe() from inside a handler invocation; the SUBSCRIBE is looked for on the wire after the EVENT."""
+        from vf.wamp_harness import Outcome
+        spec = self.Hs[hid]
+        topic = self.Ts[spec["ti"]]
+        self.log.append("sub h%d %s det=%s inside h%d" % (hid, topic["uri"], spec["det"], actor))
+        try:
+            fut = self.sess.subscribe(self.make_fn(hid), topic["uri"], self._options(topic, spec["det"]))
+        except Exception as e:
+            self.viol("C11/subscribe-in-handler/raised", "subscribe() from inside a handler raised %r" % (e,))
+            self.state[hid] = "failed"
+            return
+        self.sub_out[hid] = Outcome(fut)
+        self.state[hid] = "sent-inside"
+        self.insubs.append(hid)
+        self.R.count("subscribe_in_handler_calls")
 
     def do_subobj(self, oid):
         from autobahn import wamp
@@ -440,7 +536,15 @@ class Exec:
         self.R.count("unsubscribe_timing_checks", self.pending_withheld)
         self.pending_withheld = 0
         for m in msgs:
-            if isinstance(m, list) and m and m[0] == 34 and len(m) == 3:
+            if isinstance(m, list) and m and m[0] == 32 and len(m) == 4 and self.insubs:
+                hid = self.insubs.pop(0)
+                topic = self.Ts[self.Hs[hid]["ti"]]
+                if m[3] != topic["uri"] or (m[2] or {}).get("match", "exact") != (topic["match"] or "exact"):
+                    self.viol("C11/subscribe-in-handler/subscribe-wire", "SUBSCRIBE %r does not carry topic/match of %r" % (m, topic))
+                self.rq.append({"kind": "sub", "req": m[1], "ti": self.Hs[hid]["ti"], "hid": hid})
+                self.state[hid] = "pending"
+                self.R.count("subscribe_in_handler_on_wire")
+            elif isinstance(m, list) and m and m[0] == 34 and len(m) == 3:
                 sid = m[2]
                 if self.expect_unsub.get(sid, 0) > 0:
                     self.expect_unsub[sid] -= 1
@@ -459,6 +563,10 @@ class Exec:
                               "a second/unprescribed UNSUBSCRIBE for subscription %d was written" % sid, message=m)
             else:
                 self.viol("C11/%s/unexpected-message" % ctx, "session wrote %r" % (m,))
+        for hid in self.insubs:
+            self.viol("C11/subscribe-in-handler/subscribe-not-sent", "subscribe() from inside a handler wrote no SUBSCRIBE", wrote=msgs[:4])
+            self.state[hid] = "failed"
+        self.insubs = []
         for sid, n in list(self.expect_unsub.items()):
             if n > 0:
                 self.R.count("unsubscribe_timing_checks")
@@ -534,14 +642,25 @@ class Exec:
                         if isinstance(s, Subscription):
                             self.handle[x] = s
 
-    def do_ack_unsub(self, ti, ok=True):
+    def do_ack_unsub(self, ti, ok=True, keep=False):
         r = self._head(lambda r: r["kind"] == "unsub" and r["ti"] == ti)
         if r is None:
             return False
         self.rq.remove(r)
         sid = r["sid"]
         self.inflight.pop(sid, None)
+        if not ok and keep:
+            # the router refuses the UNSUBSCRIBE and KEEPS the subscription: it goes on sending EVENTs under this id, a
+            # later SUBSCRIBE to the topic is answered with the same id; handlers attached by a SUBSCRIBED that raced
+            # with the UNSUBSCRIBE stay attached
+            self.log.append("ERROR(UNSUBSCRIBE) sid %d, subscription kept by the router" % sid)
+            self.refused.add(sid)
+            self.R.count("unsubscribe_refused_subscription_kept")
+            self.rp.send([8, 34, r["req"], {}, "wamp.error.not_authorized"])
+            self.expect_alive("unsubscribe-reply/session-harmed", "session failed on an ERROR reply to UNSUBSCRIBE")
+            return True
         self.rsub[ti] = False
+        self.refused.discard(sid)
         if ok:
             self.log.append("UNSUBSCRIBED sid %d" % sid)
             dead = self.lists.pop(sid, [])
@@ -595,7 +714,7 @@ class Exec:
         if dflag & 2:
             det.update(retained=True)
         if topic["match"] or dflag & 2:
-            det["topic"] = topic["uri"] + (".x%d" % n if topic["match"] else "")
+            det["topic"] = concrete_topic(topic, n)
         args = kwargs = None
         if shape == "args":
             args = [tag, n, None, True]
@@ -620,6 +739,8 @@ class Exec:
         sid = self.tsid.get(ti)
         if self.rsub.get(ti) and sid not in self.grey:
             klass = "racing" if (sid in self.inflight and not self.lists.get(sid)) else "held"
+            if klass == "held" and sid in self.refused and not self.lists.get(sid):
+                klass = "refused"     # no handler left, the router would not let go: nothing to deliver; outcome for the session is grey
         elif sid is None or sid not in self.held:
             return self.do_event_never_held(ti, shape, dflag)
         elif sid in self.grey:
@@ -706,8 +827,11 @@ class Exec:
         strict = klass in ("held", "racing")
         R.count("events_fanned_out")
         self.events_judged += 1
+        R.seen("handlers_per_event", min(len(L), 9))
         if len(L) >= 2:
             R.count("multi_handler_events")
+        if len(L) >= 8:
+            R.count("events_with_8_or_more_handlers")
         names = [det_name(self.Hs[x]["det"]) for x in L]
         if any(names) and not all(names):
             R.count("mixed_details_events")
@@ -793,6 +917,8 @@ class Exec:
         R.count("invocations_compared")
         if hid in self.shared:
             R.count("same_class_instance_invocations")
+        if spec.get("same") is not None or any(sp.get("same") == hid for sp in self.Hs):
+            R.count("same_callable_invocations")
         if spec["obj"] is not None:
             R.count("decorated_object_invocations")
             if self.Os[spec["obj"]].get("falsy"):
@@ -851,6 +977,9 @@ class Exec:
                 return
             R.count("details_checked")
             R.seen("details_names", want)
+            if ev["topic"]["match"]:
+                R.count("pattern_topic_details_checked")
+                R.seen("pattern_kinds", "wildcard-empty-component" if ev["topic"].get("wc") else ev["topic"]["match"])
             det = ev["det"]
             exp = {"publication": ev["pub"], "publisher": det.get("publisher"), "publisher_authid": det.get("publisher_authid"),
                    "publisher_authrole": det.get("publisher_authrole"),
@@ -903,7 +1032,7 @@ class Exec:
         if k == "ackun":
             return self.do_ack_unsub(st[1], True)
         if k == "nackun":
-            return self.do_ack_unsub(st[1], False)
+            return self.do_ack_unsub(st[1], False, keep=len(st) > 2 and st[2] == "keep")
         if k == "revoke":
             return self.do_revoke(st[1])
         if k == "event":
@@ -952,6 +1081,7 @@ class Exec:
             else:
                 out.append((2.0, ["ackun", r["ti"]]))
                 out.append((0.15, ["nackun", r["ti"]]))
+                out.append((0.2, ["nackun", r["ti"], "keep"]))
         for ti in range(len(self.Ts)):
             sid = self.tsid.get(ti)
             if self.rsub.get(ti) and sid not in self.grey:
@@ -967,6 +1097,23 @@ class Exec:
         return out
 
     def run_adaptive(self, rng, nsteps):
+        if self.case.get("burst"):
+            # start with everything subscribed and acknowledged: long handler lists from the first event on
+            burst = [["subobj", o] for o in range(len(self.Os))] + [["sub", x] for x, sp in enumerate(self.Hs) if sp["obj"] is None]
+            rng.shuffle(burst)
+            try:
+                for st in burst:
+                    if self.step(st):
+                        self.executed.append(st)
+                while True:
+                    heads = [s for _, s in self.enabled(rng, 99) if s[0] == "ack"]
+                    if not heads:
+                        break
+                    st = rng.choice(heads)
+                    if self.step(st):
+                        self.executed.append(st)
+            except Ended:
+                return ("ended", 0)
         for i in range(nsteps):
             cands = self.enabled(rng, nsteps - i)
             tot = sum(w for w, _ in cands)
@@ -1073,6 +1220,99 @@ def run_instance(inst, R, transport, ser, limit=None):
     R.count("family_instances_enumerated")
     R.seen("families", family)
     return n
+
+
+def run_exhaustive(cfg, R, transport, ser, ci, parts, seed, length):
+    """Every admissible sequence of ``length`` DISTINCT steps drawn from the alphabet of ``cfg`` (= all orders of all
+    ``length``-subsets, hence also every shorter admissible sequence as a prefix).  The ordered pairs of first two steps
+    are dealt round-robin to the ``parts`` transport combinations; prefixes found not enabled / fatal are pruned."""
+    family, handlers, topics, objects, fresh, prefix, alphabet = cfg
+    n = len(alphabet)
+    length = min(length, n)
+    pairs = [(i, j) for i in range(n) for j in range(n) if i != j]
+    bad = set()
+    ran = 0
+
+    def isbad(cur):
+        return any(tuple(cur[:j]) in bad for j in range(1, len(cur) + 1))
+
+    def rec(cur):
+        nonlocal ran
+        if isbad(cur):
+            return
+        if len(cur) == length:
+            case = make_case(handlers, [alphabet[i] for i in cur], topics, objects, fresh, prefix)
+            (status, idx), _ = run_case(case, R, family, transport, ser)
+            ran += 1
+            if status == "disabled" and idx is not None and idx < len(prefix):
+                raise RuntimeError("harness: prefix step %r of family %s is not enabled" % (case["steps"][idx], family))
+            if status in ("disabled", "ended") and idx is not None:
+                bad.add(tuple(cur[:idx - len(prefix) + 1]))
+                if status == "disabled":
+                    R.count("orders_pruned_not_enabled")
+            else:
+                R.count("exhaustive_sequences_completed")
+            return
+        for x in range(n):
+            if x not in cur:
+                rec(cur + [x])
+                if isbad(cur):
+                    return
+
+    for pi, pr in enumerate(pairs):
+        if (pi + seed) % parts == ci or (pi + seed + 3) % parts == ci:     # every sequence on 2 of the 8 combinations
+            rec(list(pr))
+    R.count("exhaustive_cases", ran)
+    R.seen("families", family)
+    return ran
+
+
+def exhaustive_configs():
+    """(family, handlers, topics, objects, fresh_sid, prefix, alphabet) - thorough tier."""
+    EVa, EVb, EVc = ["event", 0, "kwargs", 1], ["event", 0, "both", 2], ["event", 0, "args", 0]
+    out = []
+    # X1: one id, handlers with mixed details arriving and leaving, refused and granted UNSUBSCRIBE
+    for dets, rz, fresh, topic in (((None, ["flag"], ["arg", "evt"]), "sync", False, T(0)),
+                                   ((["flag"], None, None), "coro", True, T(0, "prefix")),
+                                   ((["arg", "evt"], ["arg", "details"], ["flag"]), "failed_future", False, T(0, wc=True))):
+        out.append(("X1/one-id-subscribe-unsubscribe", [H(0, dets[0]), H(0, dets[1]), H(0, dets[2], raises=rz)], [topic], [], fresh,
+                    [["sub", 0], ["ack", 0]],
+                    [["sub", 1], ["sub", 2], ["ack", 1], ["ack", 2], ["unsub", 0], ["unsub", 1], ["unsub", 2], ["ackun", 0],
+                     ["nackun", 0, "keep"], EVa, EVb]))
+    # X2: three attached handlers that unsubscribe each other / themselves from inside, a fourth (same callable as h1) arrives
+    for un0, un2, rz in (([1], [2], "apperr"), ([2, 0], [1], None)):
+        out.append(("X2/unsubscribe-in-handler", [H(0, None, unsub=un0), H(0, ["flag"]), H(0, None, unsub=un2, raises=rz), H(0, ["flag"], same=1)],
+                    [T(0, "prefix")], [], True,
+                    [["sub", 0], ["sub", 1], ["sub", 2], ["ack", 0], ["ack", 1], ["ack", 2]],
+                    [["unsub", 0], ["unsub", 1], ["unsub", 2], ["ackun", 0], ["sub", 3], ["ack", 3], ["unsub", 3], EVa, EVb, EVc]))
+    # X3: two ids (exact + wildcard), the same callable on both, independent UNSUBSCRIBE dialogues
+    out.append(("X3/two-ids-same-callable", [H(0, None), H(1, ["arg", "evt"]), H(1, None, same=0), H(0, ["flag"], raises="failed_future")],
+                [T(0), T(1, wc=True)], [], True,
+                [["sub", 0], ["sub", 1], ["ack", 0], ["ack", 1]],
+                [["sub", 2], ["ack", 2], ["sub", 3], ["ack", 3], ["unsub", 0], ["unsub", 1], ["ackun", 0], ["ackun", 1],
+                 EVa, ["event", 1, "both", 3]]))
+    # X4: two instances of one decorated class and a plain handler on one id
+    hs = [H(0, ["flag"], obj=0, own=True), H(0, ["flag"], obj=1, own=True, raises="sync"), H(0, None, unsub=[0])]
+    objs = [{"hids": [0], "objdet": None, "falsy": False, "cls": 0}, {"hids": [1], "objdet": None, "falsy": False, "cls": 0}]
+    out.append(("X4/same-class-instances", hs, [T(0)], objs, False,
+                [["subobj", 0], ["ack", 0]],
+                [["subobj", 1], ["ack", 1], ["sub", 2], ["ack", 2], ["unsub", 0], ["unsub", 1], ["unsub", 2], ["ackun", 0], EVa, EVb]))
+    hs = [H(0, None, obj=i, own=False, unsub=[1] if i == 2 else ()) for i in range(3)]
+    objs = [{"hids": [i], "objdet": None, "falsy": True, "cls": 0} for i in range(3)]
+    out.append(("X4/same-class-three-instances", hs, [T(0, wc=True)], objs, True,
+                [["subobj", 0], ["subobj", 1], ["subobj", 2], ["ack", 0], ["ack", 1]],
+                [["ack", 2], ["unsub", 0], ["unsub", 1], ["unsub", 2], ["ackun", 0], ["nackun", 0, "keep"], EVa, EVb, EVc]))
+    # X5: subscribe() from inside a handler
+    out.append(("X5/subscribe-in-handler", [H(0, None, insub=[1]), H(0, ["flag"], unsub=[0]), H(0, ["arg", "evt"], insub=[3]), H(0, None, same=0)],
+                [T(0)], [], True,
+                [["sub", 0], ["ack", 0]],
+                [EVa, EVb, EVc, ["ack", 1], ["nack", 1], ["sub", 2], ["ack", 2], ["ack", 3], ["unsub", 0], ["unsub", 1], ["ackun", 0]]))
+    out.append(("X5/subscribe-in-handler-other-id", [H(0, ["flag"], insub=[1, 2]), H(1, None), H(0, None, same=1), H(1, ["arg", "evt"], unsub=[1])],
+                [T(0), T(1, "prefix")], [], False,
+                [["sub", 0], ["sub", 3], ["ack", 0], ["ack", 3]],
+                [EVa, EVb, ["event", 1, "both", 1], ["event", 1, "kwargs", 2], ["ack", 1], ["ack", 2], ["unsub", 0], ["unsub", 3], ["ackun", 0],
+                 ["ackun", 1]]))
+    return out
 
 
 # ------------------------------------------------------------------------------------------------
@@ -1184,6 +1424,40 @@ def instances(tier):
         pre = [["subobj", 0], ["subobj", 1], ["sub", 3], ["subobj", 2], ["ack", 0], ["ack", 1], ["ack", 3], ["ack", 2]]
         out.append(("H/same-class-instances-object-options", hs, [T(0)], objs, False, pre,
                     [["unsub", target], EVK, EV, ["unsub", (target + 2) % 3], ["event", 0, "args", 0], ["unsub", 3]]))
+    # M: eight handlers on one id (mixed details, one raising, one unsubscribing a later sibling, one callable twice)
+    hs = [H(0, DETS[i % 4]) for i in range(8)]
+    hs[2]["unsub"], hs[4]["raises"], hs[6]["same"], hs[6]["det"] = [5], "sync", 1, None
+    out.append(("M/eight-handlers-one-id", hs, [T(0, "prefix")], [], True,
+                [["sub", i] for i in range(8)] + [["ack", i] for i in range(8)],
+                [EVK, EV, ["unsub", 3], ["unsub", 0], ["unsub", 7]]))
+    # I: the same callable subscribed several times (same / different options, same / different topic)
+    for d1 in (None, ["flag"]):
+        hs = [H(0, None), H(0, d1, same=0), H(0, ["arg", "evt"], raises="sync"), H(1, None, same=0)]
+        out.append(("I/same-callable-twice", hs, [T(0), T(1, "prefix")], [], True,
+                    [["sub", 0], ["sub", 2], ["sub", 1], ["sub", 3], ["ack", 0], ["ack", 2], ["ack", 3]],
+                    [["ack", 1], EVK, EV, ["unsub", 0], ["unsub", 1], ["event", 1, "both", 2]]))
+    hs = [H(0, None, unsub=[1]), H(0, None, same=0), H(0, None, same=0), H(0, ["flag"])]
+    out.append(("I/same-callable-three-times-unsubscribe-in-handler", hs, [T(0)], [], False,
+                [["sub", i] for i in range(4)] + [["ack", i] for i in range(4)],
+                [EVN, EVK, ["unsub", 2], ["unsub", 3], ["ackun", 0]]))
+    # J: subscribe() from inside a handler: the new handler is attached by a later SUBSCRIBED, never during the fan-out
+    for det in (None, ["flag"]):
+        hs = [H(0, det, insub=[1, 2]), H(0, ["arg", "evt"]), H(1, None, same=0), H(0, None, unsub=[0])]
+        out.append(("J/subscribe-in-handler", hs, [T(0), T(1, wc=True)], [], True,
+                    [["sub", 0], ["sub", 3], ["ack", 0]],
+                    [["ack", 3], EVK, EV, ["ack", 1], ["ack", 2], ["event", 1, "both", 3]]))
+    # K: UNSUBSCRIBE refused, the router keeps the subscription and goes on sending events
+    out.append(("K/unsubscribe-refused-subscription-kept", [H(0, None), H(0, ["flag"]), H(0, ["arg", "evt"])], [T(0, "prefix")], [], True,
+                [["sub", 0], ["ack", 0], ["sub", 1]],
+                [["unsub", 0], ["ack", 1], ["nackun", 0, "keep"], EV, EVK, ["sub", 2], ["ack", 2]]))
+    out.append(("K/unsubscribe-refused-then-unsubscribed", [H(0, None), H(0, ["flag"])], [T(0)], [], False,
+                [["sub", 0], ["ack", 0], ["unsub", 0], ["nackun", 0, "keep"], ["sub", 1], ["ack", 1]],
+                [EV, ["unsub", 1], ["ackun", 0], EVK, ["event", 0, "args", 1]]))
+    # L: pattern subscriptions (prefix, wildcard with an empty component, decorated "<x>" pattern): details.topic
+    hs = [H(0, ["flag"]), H(0, None, obj=0, own=False), H(1, ["arg", "evt"], obj=0, own=True), H(1, ["flag"]), H(0, ["arg", "details"])]
+    out.append(("L/pattern-subscriptions", hs, [T(0, wc=True), T(1, "prefix")], [{"hids": [1, 2], "objdet": None}], True,
+                [["sub", 0], ["subobj", 0], ["sub", 3], ["sub", 4]],
+                [["ack", 0], ["ack", 1], ["ack", 2], ["ack", 3], ["ack", 4], ["event", 0, "both", 1], ["event", 1, "kwargs", 3]]))
     # G: never-held / early events and refused subscriptions
     out.append(("G/never-held-and-refused", [H(0, None), H(1, ["flag"])], [T(0), T(1)], [], True, [],
                 [["sub", 0], ["sub", 1], ["nack", 0], ["ack", 1], ["event", 0, "args", 0], ["event", 1, "args", 1]]))
@@ -1195,13 +1469,18 @@ def instances(tier):
     return out
 
 
-def gen_random_case(rng):
+def gen_random_case(rng, deep=False):
+    """deep (thorough tier): up to 12 handlers, 8 and more of them on one subscription id."""
     ntop = rng.choice([1, 1, 2, 3])
-    topics = [T(i, rng.choice([None, None, "prefix", "wildcard"])) for i in range(ntop)]
-    nh = rng.randint(2, 7)
+    topics = []
+    for i in range(ntop):
+        m = rng.choice([None, None, "prefix", "wildcard", "wc"])
+        topics.append(T(i, wc=True) if m == "wc" else T(i, m))
+    nh = rng.randint(4, 12) if deep else rng.randint(2, 7)
+    p0 = 0.8 if deep else 0.6
     hs = []
     for i in range(nh):
-        ti = 0 if rng.random() < 0.6 else rng.randrange(ntop)
+        ti = 0 if rng.random() < p0 else rng.randrange(ntop)
         det = rng.choice([None, None, ["flag"], ["arg", "evt"], ["arg", "details"], ["arg", "d2"]])
         rz = rng.choice(["sync", "apperr", "failed_future", "coro"]) if rng.random() < 0.22 else None
         un = []
@@ -1255,7 +1534,22 @@ def gen_random_case(rng):
                 hs[x]["unsub"] = rng.sample(range(len(hs)), rng.choice([1, 1, 2]))
         if rng.random() < 0.3:
             hs[rng.randrange(len(hs))]["unsub"] = [rng.choice(new)]
-    return {"handlers": hs, "topics": topics, "objects": objects, "fresh_sid": rng.random() < 0.6, "steps": [], "adaptive": True}
+    plain = [x for x, sp in enumerate(hs) if sp["obj"] is None]
+    for x in plain:
+        # the same callable subscribed again (same or other topic, same or other options)
+        roots = [y for y in plain if y < x and hs[y]["same"] is None]
+        if roots and rng.random() < 0.12:
+            hs[x]["same"] = rng.choice(roots)
+            if rng.random() < 0.5:
+                hs[x]["ti"], hs[x]["det"] = hs[hs[x]["same"]]["ti"], rng.choice([hs[hs[x]["same"]]["det"], hs[x]["det"]])
+    for x in plain:
+        # subscribe() from inside a handler
+        if rng.random() < 0.12:
+            hs[x]["insub"] = rng.sample(plain, min(len(plain), rng.choice([1, 1, 2])))
+    case = {"handlers": hs, "topics": topics, "objects": objects, "fresh_sid": rng.random() < 0.6, "steps": [], "adaptive": True}
+    if deep and rng.random() < 0.35:
+        case["burst"] = True
+    return case
 
 
 # ------------------------------------------------------------------------------------------------
@@ -1284,7 +1578,7 @@ def run_shard(params, R):
     transport, ser = COMBOS[ci]
     R.seen("configs", "%s/%s/%s%s" % (params["fw"], transport, ser, "/purepy" if params.get("purepy") else ""))
     for k in DECIDING:
-        if k != "same_class_unsubscribe_positions":      # a distinct set, not a counter
+        if k not in _DISTINCT_DECIDING:      # distinct sets, not counters
             R.count(k, 0)
     insts = instances(tier)
     # quick: every instance on one combination per framework (rotated by the seed); thorough: on three
@@ -1297,13 +1591,18 @@ def run_shard(params, R):
             run_instance(inst, R, transport, ser)
         elif params.get("purepy") and ii % 4 == ci % 4:
             run_instance(inst, R, transport, ser, limit=150)
+    if tier == "thorough" and not params.get("purepy"):
+        for cfg in exhaustive_configs():
+            run_exhaustive(cfg, R, transport, ser, ci, parts, seed, 6)
     rng = random.Random(seed * 1000003 + ci * 7919 + (0 if params["fw"] == "tx" else 104729))
-    nrand = 450 if tier == "quick" else 9000
+    nrand = 450 if tier == "quick" else NRAND_THOROUGH
     if params.get("purepy"):
-        nrand = 2500
-    for _ in range(nrand):
-        case = gen_random_case(rng)
-        run_case(case, R, "R/random-history", transport, ser, rng=rng, nsteps=rng.randint(10, 45))
+        nrand = 8000
+    for i in range(nrand):
+        deep = tier == "thorough" and i % 2 == 1
+        case = gen_random_case(rng, deep)
+        run_case(case, R, "R/random-history-deep" if deep else "R/random-history", transport, ser, rng=rng,
+                 nsteps=rng.randint(20, 48) if deep else rng.randint(10, 45))
 
 
 def replay(case, R):
@@ -1311,6 +1610,7 @@ def replay(case, R):
     transport = case.pop("transport", "websocket")
     ser = case.pop("ser", "json")
     case.pop("adaptive", None)
+    case.pop("burst", None)
     run_case(case, R, "replay", transport, ser)
 
 
@@ -1325,7 +1625,7 @@ MANIFEST_ENTRY = {
              "session/transport state. Held = no mismatch on the executions listed in the evidence; not a proof."),
     "note": ("conservative on what the statement leaves open: EVENT after UNSUBSCRIBED, after a refused UNSUBSCRIBE and router "
              "revocation are observed, not judged; a sibling unsubscribed earlier in the same fan-out must not get that event "
-             "any more; payload encryption, acknowledged delivery and double subscription of one callable are not driven; "
+             "any more; payload encryption and acknowledged delivery are not driven; "
              "trusts the harness codecs"),
     "technique": "runtime monitoring: history + executable model (handler lists per subscription id), unique tags, "
                  "exhaustive order enumeration of small step sets + seeded random histories on virtual-clock worlds",
